@@ -328,6 +328,15 @@ F('functional_step swaps state and next_state for the reward', ['C12'], ['C12.R5
 F('memory reward inverted', ['C12'], ['C12.R1'], R,
   '        (reward_good if agent_grid_object.color is beacon_color else reward_bad)',
   '        (reward_good if agent_grid_object.color is not beacon_color else reward_bad)')
+F('memory beacon searched in the pre-state', ['C12'], ['C12.R2'], R,
+  '        next_state.grid[position]\n        for position in next_state.grid.area.positions()\n    )\n    beacon_color',
+  '        state.grid[position]\n        for position in next_state.grid.area.positions()\n    )\n    beacon_color')
+F('memory beacon colour taken from the first Exit', ['C12'], ['C12.R2'], R,
+  '        if isinstance(grid_object, Beacon)\n    )',
+  '        if isinstance(grid_object, Exit)\n    )')
+C('memory beacon found through map', ['C12', 'C01'], R,
+  '    grid_objects = (\n        next_state.grid[position]\n        for position in next_state.grid.area.positions()\n    )\n    beacon_color = next(\n        grid_object.color\n        for grid_object in grid_objects\n        if isinstance(grid_object, Beacon)\n    )',
+  '    grid = next_state.grid\n    beacons = (\n        grid_object\n        for grid_object in map(grid.__getitem__, grid.area.positions())\n        if isinstance(grid_object, Beacon)\n    )\n    beacon_color = next(beacons).color')
 F('distance helper reads the enclosing state', ['C12'], ['C12.R1'], R,
   '    def _distance_agent_object(state):\n        object_position = mitt.one(\n            position\n            for position in state.grid.area.positions()\n            if isinstance(state.grid[position], object_type)\n        )\n        return distance_function(state.agent.position, object_position)',
   '    def _distance_agent_object(s):\n        object_position = mitt.one(\n            position\n            for position in state.grid.area.positions()\n            if isinstance(state.grid[position], object_type)\n        )\n        return distance_function(state.agent.position, object_position)')
